@@ -277,3 +277,76 @@ def c06_classify(params, tree, res):
         # adjacent `***` and `**` segments are folded into one globstar: the matcher keeps the first one's kind, the walker the last one's
         return 'adjacent-globstar-kinds-merged-differently'
     return None
+
+
+# ---------------------------------------------------------------------------------------------------------
+# C12: glob results are well-formed and independent of how the root is given
+
+def c12(root, pats, flags, exclude, slots):
+    import pathlib
+    from wcmatch import glob as G
+    viol = []
+    kw = {'flags': flags}
+    if exclude is not None:
+        kw['exclude'] = exclude
+    plist = [pats] if isinstance(pats, str) else list(pats)
+    plist = [p.replace('$ROOT', root) for p in plist]
+    pats_s = plist[0] if isinstance(pats, str) else plist
+    old = os.getcwd()
+    os.chdir('/')                       # the working directory must not matter when a root is given
+    try:
+        R = _call(G.glob, pats_s, root_dir=root, **kw)
+        if isinstance(R, str):
+            return {'viol': [f'glob raised {R}'] if R != 'EXC:PatternLimitException' else [], 'obs': R}
+        if any(r.count('/') > 20 for r in R):
+            return {'viol': [], 'obs': None, 'eloop': True}
+        positives = [p for p in plist if not ((flags & G.NEGATE) and p[:1] == ('-' if flags & G.MINUSNEGATE else '!') and not (p[1:2] == '(' and flags & G.EXTGLOB and not flags & G.MINUSNEGATE))]
+        all_abs = all(p.startswith('/') for p in positives) if positives else False
+        all_rel = all(not p.startswith('/') for p in positives)
+        all_trailing = bool(positives) and all(p.endswith('/') and not p.endswith('\\/') for p in positives) and not flags & (G.BRACE | G.SPLIT)
+        for r in R:
+            full = r if r.startswith('/') else os.path.join(root, r)
+            if not os.path.lexists(full):
+                viol.append(f'result {r!r} does not exist')
+                continue
+            isdir = os.path.isdir(full)
+            if all_rel and r.startswith('/'):
+                viol.append(f'relative pattern produced absolute result {r!r}')
+            if all_abs and not r.startswith('/'):
+                viol.append(f'absolute pattern produced relative result {r!r}')
+            if r.endswith('/') and not isdir:
+                viol.append(f'result {r!r} ends with a separator but is not a directory')
+            if isdir and (all_trailing or flags & G.MARK) and not r.endswith('/'):
+                viol.append(f'directory result {r!r} lacks the trailing separator (pattern ended with one / MARK)')
+            if flags & G.NODIR and isdir:
+                viol.append(f'NODIR returned the directory {r!r}')
+        it = _call(lambda: list(G.iglob(pats_s, root_dir=root, **kw)))
+        if it != R:
+            viol.append(f'iglob {it} != glob {R}')
+        # the same results however the root is given
+        variants = {}
+        bp = [os.fsencode(p) for p in plist]
+        bkw = dict(kw)
+        if exclude is not None:
+            bkw['exclude'] = [os.fsencode(e) for e in ([exclude] if isinstance(exclude, str) else exclude)]
+        rb = _call(G.glob, bp[0] if isinstance(pats, str) else bp, root_dir=os.fsencode(root), **bkw)
+        variants['bytes root_dir'] = [os.fsdecode(x) for x in rb] if isinstance(rb, list) else rb
+        variants['PathLike root_dir'] = _call(G.glob, pats_s, root_dir=pathlib.PurePosixPath(root), **kw)
+        fd = os.open(root, os.O_RDONLY | getattr(os, 'O_DIRECTORY', 0))
+        try:
+            variants['dir_fd'] = _call(G.glob, pats_s, dir_fd=fd, **kw)
+        finally:
+            os.close(fd)
+        os.chdir(root)
+        variants['cwd'] = _call(G.glob, pats_s, **kw)
+        os.chdir('/')
+        for name, val in variants.items():
+            if val != R:
+                viol.append(f'root given as {name}: {val} != root_dir str: {R}')
+        return {'viol': viol, 'obs': [x.replace(root, '$ROOT') for x in R]}
+    finally:
+        os.chdir(old)
+
+
+def c12_classify(params, tree, res):
+    return None
